@@ -168,6 +168,7 @@ def main():
     import bytebuf
     from bytebuf import ByteBuf
     ctx = Ctx(case["prog"], mod)
+    last = {}
     for op in case["ops"]:
         del bytebuf.TRACE[:]
         kind = op["op"]
@@ -200,7 +201,12 @@ def main():
             buf = ByteBuf(data)
             buf.write_index = len(data)
             try:
-                inst = ctx.cls(pk["name"])()
+                # "reuse": decode into the object the previous dec op of this packet used (a receiver that is
+                # read in a loop / taken from a pool), otherwise into a fresh one
+                inst = last.get(pk["name"]) if op.get("reuse") else None
+                if inst is None:
+                    inst = ctx.cls(pk["name"])()
+                last[pk["name"]] = inst
                 inst.decode(buf)
             except MemberMismatch as e:
                 ev.update(ok=False, cls="member-missing", err=str(e), consumed=buf.read_index)
